@@ -108,6 +108,64 @@ theorem uleb_truncated_error (b0 : Nat) (h0 : 128 ≤ b0) : readUleb [b0] = none
 theorem uleb_empty_error : readUleb [] = none := rfl
 theorem sleb_empty_error : readSleb [] = none := rfl
 
+/-- General truncation, unsigned: a buffer that ends after 0..4 bytes that all have the continuation
+    bit set (every proper prefix of an item, and every such run in general) is an error
+    (`struct.error` of the read past the end), never a value. -/
+theorem uleb_truncated (bs : List Nat) (hl : bs.length ≤ 4) (hc : ∀ b ∈ bs, 128 ≤ b) :
+    readUleb bs = none := by
+  match bs, hl, hc with
+  | [], _, _ => rfl
+  | [b0], _, hc =>
+    have h0 : b0 > 0x7F := by have := hc b0 (by simp); omega
+    simp [readUleb, h0]
+  | [b0, b1], _, hc =>
+    have h0 : b0 > 0x7F := by have := hc b0 (by simp); omega
+    have h1 : b1 > 0x7F := by have := hc b1 (by simp); omega
+    simp [readUleb, h0, h1]
+  | [b0, b1, b2], _, hc =>
+    have h0 : b0 > 0x7F := by have := hc b0 (by simp); omega
+    have h1 : b1 > 0x7F := by have := hc b1 (by simp); omega
+    have h2 : b2 > 0x7F := by have := hc b2 (by simp); omega
+    simp [readUleb, h0, h1, h2]
+  | [b0, b1, b2, b3], _, hc =>
+    have h0 : b0 > 0x7F := by have := hc b0 (by simp); omega
+    have h1 : b1 > 0x7F := by have := hc b1 (by simp); omega
+    have h2 : b2 > 0x7F := by have := hc b2 (by simp); omega
+    have h3 : b3 > 0x7F := by have := hc b3 (by simp); omega
+    simp [readUleb, h0, h1, h2, h3]
+  | _ :: _ :: _ :: _ :: _ :: _, hl, _ => simp at hl
+
+/-- General truncation, uleb128p1. -/
+theorem ulebp1_truncated (bs : List Nat) (hl : bs.length ≤ 4) (hc : ∀ b ∈ bs, 128 ≤ b) :
+    readUlebP1 bs = none := by
+  unfold readUlebP1; rw [uleb_truncated bs hl hc]
+
+/-- General truncation, signed: the loop reads the next byte after every continuation byte, so a
+    buffer that ends after 0..4 continuation bytes is an error (`struct.error`), never a value. -/
+theorem sleb_truncated (bs : List Nat) (hl : bs.length ≤ 4) (hc : ∀ b ∈ bs, 128 ≤ b ∧ b < 256) :
+    readSleb bs = none := by
+  match bs, hl, hc with
+  | [], _, _ => rfl
+  | [b0], _, hc =>
+    have h0 := and80_nz (hc b0 (by simp)).1 (hc b0 (by simp)).2
+    simp [readSleb, readSlebLoop, h0]
+  | [b0, b1], _, hc =>
+    have h0 := and80_nz (hc b0 (by simp)).1 (hc b0 (by simp)).2
+    have h1 := and80_nz (hc b1 (by simp)).1 (hc b1 (by simp)).2
+    simp [readSleb, readSlebLoop, h0, h1]
+  | [b0, b1, b2], _, hc =>
+    have h0 := and80_nz (hc b0 (by simp)).1 (hc b0 (by simp)).2
+    have h1 := and80_nz (hc b1 (by simp)).1 (hc b1 (by simp)).2
+    have h2 := and80_nz (hc b2 (by simp)).1 (hc b2 (by simp)).2
+    simp [readSleb, readSlebLoop, h0, h1, h2]
+  | [b0, b1, b2, b3], _, hc =>
+    have h0 := and80_nz (hc b0 (by simp)).1 (hc b0 (by simp)).2
+    have h1 := and80_nz (hc b1 (by simp)).1 (hc b1 (by simp)).2
+    have h2 := and80_nz (hc b2 (by simp)).1 (hc b2 (by simp)).2
+    have h3 := and80_nz (hc b3 (by simp)).1 (hc b3 (by simp)).2
+    simp [readSleb, readSlebLoop, h0, h1, h2, h3]
+  | _ :: _ :: _ :: _ :: _ :: _, hl, _ => simp at hl
+
 /-- encode then decode, unsigned: every 32-bit value. -/
 theorem uleb_roundtrip (v : Nat) (rest : List Nat) (hv : v < 2 ^ 32) :
     readUleb (writeUlebNat v ++ rest) = some (v, (writeUlebNat v).length) :=
@@ -201,6 +259,16 @@ theorem src_sleb_roundtrip (v : Int) (rest : List Nat) (hlo : -2 ^ 31 ≤ v) (hh
   · rw [gen_readsleb128_eq, hr]
     simp [PyLeb.rd]
 
+/-- truncation, about the translated source: all three readers raise on a buffer that ends after
+    0..4 continuation bytes. -/
+theorem src_truncated (bs : List Nat) (hl : bs.length ≤ 4) (hc : ∀ b ∈ bs, 128 ≤ b ∧ b < 256) :
+    Gen.PyLeb.readuleb128 bs = none ∧ Gen.PyLeb.readuleb128p1 bs = none ∧
+      Gen.PyLeb.readsleb128 bs = none := by
+  have hc' : ∀ b ∈ bs, 128 ≤ b := fun b hb => (hc b hb).1
+  rw [gen_readuleb128_eq, gen_readuleb128p1_eq, gen_readsleb128_eq, uleb_truncated bs hl hc',
+    ulebp1_truncated bs hl hc', sleb_truncated bs hl hc]
+  exact ⟨rfl, rfl, rfl⟩
+
 /-! Non-vacuity: concrete non-trivial objects satisfy the hypotheses. -/
 example : IsItem [0xe5, 0x8e, 0x26] ∧ unsignedValue [0xe5, 0x8e, 0x26] = some 624485 := by decide
 example : IsItem [0xff, 0xff, 0xff, 0xff, 0x0f] ∧
@@ -209,6 +277,7 @@ example : IsItem [0x80, 0x7f] ∧ signedValue [0x80, 0x7f] = some (-128) := by d
 example : IsItem [0x80, 0x80, 0x80, 0x80, 0x78] ∧
     signedValue [0x80, 0x80, 0x80, 0x80, 0x78] = some (-2 ^ 31) := by decide
 example : readSleb [0x80, 0x80, 0x80, 0x80, 0x78] = some (-2147483648, 5) := by decide
+example : readUleb [0x80, 0xff, 0x80, 0x81] = none ∧ readSleb [0x80, 0xff, 0x80, 0x81] = none := by decide
 example : Gen.PyLeb.readsleb128 [0x80, 0x80, 0x80, 0x80, 0x78, 7] = some (-2147483648, [7]) := by decide
 example : Gen.PyLeb.writeuleb128 624485 = some [0xe5, 0x8e, 0x26] := by decide
 example : Gen.PyLeb.writesleb128 (-128) = some [0x80, 0x7f] := by decide
